@@ -402,9 +402,22 @@ package sql
 
 //@ axiom literalsContent: len(literals) == 4 && literals[0] == INT && literals[1] == STR && literals[2] == TRUE && literals[3] == FALSE
 
+// The select/group-by consistency check: a statement that passes it names, for every GROUP BY column, at most one select-list
+// column that column can stand for (otherwise the executor would group by the first one only).
+//@ spec pred dcMatches(d DerivedColumn, rhs ColumnReference) { typeof(d.ValueExpressionPrimary) == typ(ColumnReference) &&
+//@        ((d.ValueExpressionPrimary.(ColumnReference).Qualifier == rhs.Qualifier && d.ValueExpressionPrimary.(ColumnReference).ColumnName == rhs.ColumnName) ||
+//@         d.AsClause == rhs.ColumnName || (d.ValueExpressionPrimary.(ColumnReference).ColumnName == rhs.ColumnName && rhs.Qualifier == "")) }
+//@ spec pred gbM(sl SelectList, gb []ColumnReference, i int, g int) { dcMatches(sl[i], gb[g]) }
+//@ spec pred gbUnique(sl SelectList, gb []ColumnReference, g int, n int) { forall i, j int :: 0 <= i && i < j && j < n && gbM(sl, gb, i, g) ==> !gbM(sl, gb, j, g) }
 //@ func validateGroupByFields(s Select) error
 //@   props C07 C09
 //@   pure
+//@   ensures[unique; C07] result == nil ==>
+//@              forall g int :: 0 <= g && g < len(s.TableExpression.GroupByClause) ==> gbUnique(s.SelectList, s.TableExpression.GroupByClause, g, len(s.SelectList))
+//@   loop 3 invariant[unique; C07] forall g int :: 0 <= g && g <= rangeindex ==> gbUnique(s.SelectList, s.TableExpression.GroupByClause, g, len(s.SelectList))
+//@   loop 4 invariant[unique; C07] forall g int :: 0 <= g && g <= rangeindex3 ==> gbUnique(s.SelectList, s.TableExpression.GroupByClause, g, len(s.SelectList))
+//@   loop 4 invariant[unique.sofar; C07] gbUnique(s.SelectList, s.TableExpression.GroupByClause, rangeindex3 + 1, rangeindex + 1)
+//@   loop 4 invariant[unique.none; C07] !hasMatch ==> forall i int :: 0 <= i && i <= rangeindex ==> !gbM(s.SelectList, s.TableExpression.GroupByClause, i, rangeindex3 + 1)
 
 //@ spec pred isAggCol(s SelectList, i int) { typeof(s[i].ValueExpressionPrimary) == typ(Count) || typeof(s[i].ValueExpressionPrimary) == typ(Average) }
 //@ func (s SelectList) HasAggrFunc() bool
@@ -427,6 +440,9 @@ package sql
 //@ func (d DerivedColumn) Matches(rhs ColumnReference) bool
 //@   props C07
 //@   pure
+//@   ensures[def; C07] result == (typeof(d.ValueExpressionPrimary) == typ(ColumnReference) &&
+//@        ((d.ValueExpressionPrimary.(ColumnReference).Qualifier == rhs.Qualifier && d.ValueExpressionPrimary.(ColumnReference).ColumnName == rhs.ColumnName) ||
+//@         d.AsClause == rhs.ColumnName || (d.ValueExpressionPrimary.(ColumnReference).ColumnName == rhs.ColumnName && rhs.Qualifier == "")))
 
 //@ func (v ColumnReference) String() string
 //@   pure
